@@ -307,8 +307,12 @@ def correspond(ctx, drivers):
     cfgs = cfg_list(ctx)
     reqs, meta = [{'op': 'tables'}, {'op': 'codes'}], []
     ctx.extra['failing_cases'] = []
+    heaps = []
     for prof, spec in gen_specs(ctx, n_graphs):
         sc = G.spec_canon(spec)
+        # the numbering traversal: the model numbers the heap graph given in spec order
+        reqs.append({'op': 'number', 'g': G.spec_heap(spec), 'root': 0})
+        heaps.append([spec, sc, None])
         for cfg in cfgs:
             res = roundtrip(spec, cfg)
             case = {'spec': spec, 'cfg': cfg}
@@ -331,6 +335,8 @@ def correspond(ctx, drivers):
                         ctx.disagree(case, res['data'][:80].decode('latin1'), hdr.decode(), 'binary header comment')
                     reqs.append({'op': 'decode', 'v': cfg['v'], 'uni': uni, 'bytes': list(res['data'][len(hdr):])})
                 meta.append((spec, sc, cfg, res))
+                if 'data' in res and heaps[-1][2] is None:
+                    heaps[-1][2] = len(meta) - 1      # a binary case whose decoded bytes show the implementation's numbering
             else:
                 reqs.append({'op': 'kv2', 'flat': cfg['flat'], 'cull': cfg['cull'], 'g': res['orig_text']})
                 if 'data' in res:
@@ -376,8 +382,21 @@ def correspond(ctx, drivers):
     if [c[:3] for c in codes_tbl] != impl_codes:
         ctx.disagree('codes', impl_codes, codes_tbl, 'type code table')
     ctx.traces_vs_impl += 1
-    for spec, sc, cfg, res in meta:
+    per_spec = len(cfgs)
+    heap_iter = iter(heaps)
+    decoded = {}
+    for mi, (spec, sc, cfg, res) in enumerate(meta):
         case = {'spec': spec, 'cfg': cfg}
+        if mi % per_spec == 0:
+            hspec, hsc, hmi = next(heap_iter)
+            num = next(it)
+            ctx.traces_vs_impl += 1
+            ctx.count('numbering')
+            if not num.get('closed'):
+                ctx.disagree({'spec': hspec}, 'generated heap', 'heapClosed = false', 'generator left the domain of C14_iso')
+            if num.get('g') != hsc:
+                ctx.disagree({'spec': hspec}, 'harness BFS', G.approx_equal(hsc, num.get('g', {'elems': []}), tol=0), 'model numbering (indexed) vs generator graph')
+            pending_num = (hspec, num, hmi)
         enc = next(it)
         if cfg['fmt'] == 'kv2':
             _kv2_compare(ctx, case, cfg, res, enc, it)
@@ -397,6 +416,9 @@ def correspond(ctx, drivers):
         elif not enc.get('ok'):
             ctx.disagree(case, 'exported', 'graphOK = false', 'model well-formedness predicate rejects an exportable graph')
         # independent decode of the implementation's bytes by the model
+        if 'g' in dec and pending_num[2] == mi and dec['g'] != pending_num[1].get('g'):
+            ctx.disagree(case, 'order written by export_binary', G.approx_equal(dec['g'], pending_num[1].get('g', {'elems': []}), tol=0),
+                         'element numbering: decoded implementation bytes vs model traversal of the heap graph')
         if 'g' not in dec:
             ctx.disagree(case, res.get('parsed', res.get('parse_exc')), dec, 'model cannot decode the exported bytes')
         else:
